@@ -145,12 +145,42 @@ func (g *c15wGate) waitBlocked(d time.Duration) bool {
 
 type c15wConn struct {
 	net.Conn
-	g *c15wGate
+	g   *c15wGate
+	dmu sync.Mutex
+	wd  time.Time // the write deadline the server armed last (zero = none)
+}
+
+// SetWriteDeadline / SetDeadline: remembered, so that the time a write spends AT THE GATE does not count against it.  The gate stands for
+// "the client is not reading right now" for as long as the scenario needs — on a loaded machine that can be longer than the server's
+// 10 s write deadline, and a write that fails for the harness's own slowness would be reported as a lost event (met once in a thorough run
+// under a machine load of 20: false alarm (m) of DESIGN.md section 0).  Whether the server arms its deadlines is C03 / C13's business
+// (scripted connections there); a client that really stays away is the failing-write phase of this leg.
+func (c *c15wConn) SetWriteDeadline(t time.Time) error {
+	c.dmu.Lock()
+	c.wd = t
+	c.dmu.Unlock()
+	return c.Conn.SetWriteDeadline(t)
+}
+
+func (c *c15wConn) SetDeadline(t time.Time) error {
+	c.dmu.Lock()
+	c.wd = t
+	c.dmu.Unlock()
+	return c.Conn.SetDeadline(t)
 }
 
 func (c *c15wConn) Write(p []byte) (int, error) {
+	t0 := time.Now()
 	if err := c.g.pass(); err != nil {
 		return 0, err
+	}
+	if held := time.Since(t0); held > 50*time.Millisecond {
+		c.dmu.Lock()
+		wd := c.wd
+		c.dmu.Unlock()
+		if !wd.IsZero() {
+			_ = c.Conn.SetWriteDeadline(wd.Add(held))
+		}
 	}
 	return c.Conn.Write(p)
 }
